@@ -1,7 +1,8 @@
 (* C13 — Reclaiming the newest allocation works; opt-out settings are honoured.
-   PARTIAL: the in-place grow clause is not proved yet (correspondence + monitors only). *)
+   All clauses are stated over the arena model: same address after reclaiming, in-place growth of
+   the newest block (upwards), opt-outs, non-last blocks untouched, invariant kept. *)
 From Coq Require Import ZArith List Bool.
-From BS Require Import Word BumpSpec ChunkSpec Arena ArenaInv ArenaStats ArenaMisc.
+From BS Require Import Word BumpSpec ChunkSpec Arena ArenaInv ArenaStats ArenaMisc ArenaMem ArenaMem2.
 Import ListNotations.
 Open Scope Z_scope.
 
@@ -42,7 +43,19 @@ Theorem C13_dealloc_keeps_invariant :
   forall c s0 h ws b r, cfg_ok c -> inv c s0 -> inv c (fst (step c s0 (ODealloc h ws b) r)).
 Proof. exact step_inv_dealloc. Qed.
 
+(* growing the newest allocation in an upward arena with enough room returns the same address,
+   without copying and without asking the base allocator *)
+Theorem C13_grow_newest_in_place_up :
+  forall c s0 h ws b nsize nalign zeroed r blk ch,
+  up c = true -> find_block (tick s0) b = Some blk -> is_top (tick s0) h = true ->
+  is_last c (tick s0) (bptr blk) (bsize blk) = true -> divides nalign (bptr blk) = true ->
+  cur_chunk (tick s0) = Some ch -> nsize <= content_end c ch - bptr blk ->
+  exists id, o_res (snd (step c s0 (OGrow h ws b nsize nalign zeroed) r)) = RBlock id (bptr blk) nsize /\
+             o_events (snd (step c s0 (OGrow h ws b nsize nalign zeroed) r)) = [].
+Proof. exact grow_newest_in_place_up_step. Qed.
+
 Print Assumptions C13_dealloc_then_alloc_same_address_up.
+Print Assumptions C13_grow_newest_in_place_up.
 Print Assumptions C13_dealloc_optout_keeps_stats.
 Print Assumptions C13_nonlast_dealloc_keeps_everything.
 Print Assumptions C13_without_shrink_fit_keeps_state.
